@@ -526,7 +526,7 @@ func TestVfRobust(t *testing.T) {
 				cl.write([]byte(m[:c]))
 				syscall.Shutdown(cl.fd, syscall.SHUT_WR)
 				closed := false
-				for end := time.Now().Add(2 * time.Second); time.Now().Before(end); {
+				for end := time.Now().Add(1 * time.Second); time.Now().Before(end); {
 					if _, x := cl.poll(); x {
 						closed = true
 						break
